@@ -203,6 +203,21 @@ def sc_data_panels(cx, ftype, cost, srcs):
         elif c is not None:
             cx.eq(tag + ":model:y==model-at-current-parameters", list(c[1][1]), m)
             cx.eq(tag + ":model:x", list(c[1][0]), xs)
+    if ftype == "hist":
+        # model density curve on the support points of a plotted range that differs from the bin range:
+        # density(x) * entries * mean bin width of the HISTOGRAM (not of the plotted range)
+        lo_, hi_ = cx.real("plo"), cx.real("phi")
+        cx.assume(lo_ < hi_)
+        ad.x_range = (lo_, hi_)
+        ad.n_plot_points = 3
+        ax = RecAxes()
+        ad.plot_model_density(ax)
+        c = ax.last("plot")
+        sup = [lo_, (lo_ + hi_) / 2, hi_]
+        mean_w = (pb.edges[-1] - pb.edges[0]) / n
+        fac = (pb.n_entries if pb.density else 1.0) * mean_w
+        cx.eq(tag + ":density-curve:x==support-points-of-the-plotted-range", list(c[1][0]), sup)
+        cx.eq(tag + ":density-curve:y==density*entries*mean-bin-width-of-the-histogram", list(c[1][1]), [fac * (p[0] + p[1] * t) for t in sup])
     # ---- residual / ratio / pull
     tot2 = want_yerr2
     ax = RecAxes()
